@@ -1,6 +1,18 @@
 //! C08 — newest write wins: a node's stamps only grow, also across restart.
 //!
-//! One check, `restart_histories` (see DESIGN.md §3 C08, notes/C08.md):
+//! Two checks over one case type and one oracle (see DESIGN.md §3 C08, notes/C08.md):
+//! `restart_histories` hands the recovery sources to the restarted node in memory (any subset
+//! of checkpoints / delta log, also lossy ones); `persisted_histories` (round 5) runs the same
+//! histories with the repository's own persistence chain between the node and its next
+//! incarnation: every emitted delta goes to a `StreamingPersistence` write buffer (flushed to
+//! segments at generated points, lost with the process otherwise) and optionally to a WAL
+//! (`WalRotator`, generated tail loss), checkpoints are written by `CheckpointManager` and
+//! installed with `Manifest::compact_segments`, and the next incarnation is fed what
+//! `RecoveryManager` and the WAL replay return, in the server's start-up order. There the
+//! stamps "shown" to the new incarnation are those the harness handed to the persistence
+//! layer and that layer acknowledged (plus whatever recovery really returned).
+//!
+//! `restart_histories`:
 //!
 //! A node N (production `ReplicatedShardedState`, replica id 1, delta sink attached exactly as
 //! `server_persistent` attaches it) runs a generated multi-phase history. Within a phase: local
@@ -27,13 +39,17 @@ use redis_sim::replication::{
     ConsistencyLevel, CrdtValue, LamportClock, ReplicaId, ReplicatedValue, ReplicationConfig,
     ReplicationDelta, ShardReplicaState,
 };
-use redis_sim::streaming::{delta_sink_channel, DeltaSinkReceiver};
+use redis_sim::streaming::{
+    delta_sink_channel, CheckpointConfig, CheckpointInfo, CheckpointManager, DeltaSinkReceiver,
+    InMemoryObjectStore, InMemoryWalStore, ManifestManager, RecoveryManager, SimulatedClock,
+    StreamingPersistence, WalEntry, WalRotator, WriteBufferConfig,
+};
 use serde::{Deserialize, Serialize};
 use serde_json::json;
 use std::collections::hash_map::DefaultHasher;
 use std::collections::{BTreeMap, BTreeSet, HashMap};
 use std::hash::{Hash, Hasher};
-use std::sync::OnceLock;
+use std::sync::{Arc, OnceLock};
 use vcore::resp::{parse_zc, Reply};
 use vcore::time::VerifTime;
 use vcore::{CaseCtx, Level, Session};
@@ -42,6 +58,8 @@ const KF1: &str = "KF-C08-01";
 const N_ID: u64 = 1;
 const PEER_ID: u64 = 9;
 const NUM_SHARDS: usize = 16;
+/// object-store prefix of the persisted mode
+const PREFIX: &str = "c08";
 
 type Stamp = (u64, u64);
 
@@ -131,6 +149,9 @@ enum Op {
     /// multi-key / unrecorded / failing / unknown commands, FLUSHALL/FLUSHDB). `$V` in an
     /// argument is replaced by a value unique to the step, `$N` by a unique number.
     Local { argv: Vec<String> },
+    /// persisted mode only: the write buffer is flushed into a segment (what the persistence
+    /// actor does on its timer / size threshold); a no-op in the in-memory mode
+    Flush,
 }
 
 #[derive(Clone, Debug, Serialize, Deserialize)]
@@ -143,6 +164,18 @@ struct Recovery {
     wal: Option<(u16, u16)>,
     /// shards whose data is missing from every source (bit i = shard i)
     drop_shards: u16,
+    /// persisted mode only (there the fields above are not used: the sources are whatever the
+    /// store and the WAL hold): how many of the newest WAL entries of the dying incarnation
+    /// never became durable (0 = none lost, 255 = all of them)
+    #[serde(default)]
+    wal_lose: u8,
+}
+
+/// Persisted mode: the recovery sources go through the repository's persistence chain.
+#[derive(Clone, Debug, Serialize, Deserialize)]
+struct StoreCfg {
+    /// WAL enabled (as `server_persistent` with a WAL config): rotation threshold in bytes
+    wal: Option<u16>,
 }
 
 #[derive(Clone, Debug, Serialize, Deserialize)]
@@ -157,6 +190,9 @@ struct Case {
     phases: Vec<Phase>,
     /// at the end the peer echoes every key back to N
     gossip_back: bool,
+    /// Some = persisted mode (check `persisted_histories`)
+    #[serde(default)]
+    store: Option<StoreCfg>,
 }
 
 fn time_pool() -> impl Strategy<Value = u64> {
@@ -279,29 +315,55 @@ fn op_strategy() -> impl Strategy<Value = Op> {
     ]
 }
 
+/// Persisted mode: the same steps plus flushes; deletes are more frequent (a tombstone is the
+/// one kind of entry that carries a stamp but no data, i.e. what a persistence layer may be
+/// tempted to leave out).
+fn store_op_strategy() -> impl Strategy<Value = Op> {
+    prop_oneof![
+        9 => local_cmd_strategy().prop_map(|argv| Op::Local { argv }),
+        6 => (0u8..4).prop_map(|k| Op::Set { k }),
+        5 => (0u8..3, fields_strategy()).prop_map(|(k, f)| Op::HSet { k, f }),
+        3 => (0u8..4).prop_map(|k| Op::Del { k }),
+        3 => (0u8..3, 0u8..3).prop_map(|(k, f)| Op::HDel { k, f }),
+        4 => (2u8..4, any::<bool>(), 0u8..4, fields_strategy(), time_pool(), prop::bool::weighted(0.15))
+            .prop_map(|(rep, hash, k, f, t, del)| Op::Remote { rep, hash, k, f, t, del }),
+        3 => Just(Op::Checkpoint),
+        1 => (any::<bool>(), 0u8..4).prop_map(|(hash, k)| Op::Echo { hash, k }),
+        4 => Just(Op::Flush),
+    ]
+}
+
 fn recovery_strategy() -> impl Strategy<Value = Recovery> {
     let fr = || any::<u16>();
     let range = || (any::<u16>(), any::<u16>()).prop_map(|(a, b)| (a.min(b), a.max(b)));
+    let rec = |ckpt, seg, wal| Recovery { ckpt, seg, wal, drop_shards: 0, wal_lose: 0 };
     let base = prop_oneof![
         // checkpoint only (latest more often than a stale one)
-        3 => prop_oneof![Just(65535u16), fr()].prop_map(|c| Recovery { ckpt: Some(c), seg: (0, 0), wal: None, drop_shards: 0 }),
+        3 => prop_oneof![Just(65535u16), fr()].prop_map(move |c| rec(Some(c), (0, 0), None)),
         // deltas only
-        2 => range().prop_map(|seg| Recovery { ckpt: None, seg, wal: None, drop_shards: 0 }),
-        1 => Just(Recovery { ckpt: None, seg: (0, 65535), wal: None, drop_shards: 0 }),
+        2 => range().prop_map(move |seg| rec(None, seg, None)),
+        1 => Just(rec(None, (0, 65535), None)),
         // both; a stale checkpoint with newer deltas is the case ckpt small / seg late
-        3 => (fr(), range()).prop_map(|(c, seg)| Recovery { ckpt: Some(c), seg, wal: None, drop_shards: 0 }),
+        3 => (fr(), range()).prop_map(move |(c, seg)| rec(Some(c), seg, None)),
         // everything
-        1 => Just(Recovery { ckpt: Some(65535), seg: (0, 65535), wal: None, drop_shards: 0 }),
+        1 => Just(rec(Some(65535), (0, 65535), None)),
         // nothing at all
-        1 => Just(Recovery { ckpt: None, seg: (0, 0), wal: None, drop_shards: 0 }),
+        1 => Just(rec(None, (0, 0), None)),
         // second call with WAL entries
         2 => (proptest::option::of(fr()), range(), range())
-            .prop_map(|(ckpt, seg, wal)| Recovery { ckpt, seg, wal: Some(wal), drop_shards: 0 }),
+            .prop_map(move |(ckpt, seg, wal)| rec(ckpt, seg, Some(wal))),
     ];
     (base, prop_oneof![4 => Just(0u16), 1 => any::<u16>()]).prop_map(|(mut r, m)| {
         r.drop_shards = m;
         r
     })
+}
+
+/// Persisted mode: what survives is decided by the history itself (flushes, checkpoints) and
+/// by how much of the WAL tail became durable.
+fn store_recovery_strategy() -> impl Strategy<Value = Recovery> {
+    prop_oneof![6 => Just(0u8), 3 => 1u8..4, 1 => Just(255u8)]
+        .prop_map(|wal_lose| Recovery { ckpt: None, seg: (0, 0), wal: None, drop_shards: 0, wal_lose })
 }
 
 fn case_strategy(thorough: bool) -> impl Strategy<Value = Case> {
@@ -322,7 +384,46 @@ fn case_strategy(thorough: bool) -> impl Strategy<Value = Case> {
             if let Some(p) = p3 {
                 phases.push(p);
             }
-            Case { phases, gossip_back }
+            Case { phases, gossip_back, store: None }
+        },
+    )
+}
+
+/// Persisted mode. Every phase may end with a flush and / or a checkpoint: the next recovery
+/// has no other sources than what the history itself made durable.
+fn store_case_strategy(thorough: bool) -> impl Strategy<Value = Case> {
+    let max_ops = if thorough { 14 } else { 9 };
+    let phase = move || {
+        (
+            proptest::collection::vec(store_op_strategy(), 1..max_ops),
+            prop::bool::weighted(0.3),
+            prop::bool::weighted(0.5),
+        )
+            .prop_map(|(mut ops, fl, ck)| {
+                if fl {
+                    ops.push(Op::Flush);
+                }
+                if ck {
+                    ops.push(Op::Checkpoint);
+                }
+                ops
+            })
+    };
+    let later = move || {
+        (store_recovery_strategy(), phase()).prop_map(|(r, ops)| Phase { recovery: Some(r), ops })
+    };
+    let wal = prop_oneof![
+        11 => Just(None),
+        // rotation threshold: a file per entry / a few entries per file / one file
+        9 => prop_oneof![Just(0u16), 0u16..600, Just(60000u16)].prop_map(Some),
+    ];
+    (phase(), later(), proptest::option::weighted(0.4, later()), any::<bool>(), wal).prop_map(
+        |(p1, p2, p3, gossip_back, wal)| {
+            let mut phases = vec![Phase { recovery: None, ops: p1 }, p2];
+            if let Some(p) = p3 {
+                phases.push(p);
+            }
+            Case { phases, gossip_back, store: Some(StoreCfg { wal }) }
         },
     )
 }
@@ -421,8 +522,49 @@ struct LastW {
     what: String,
 }
 
+type Sp = StreamingPersistence<InMemoryObjectStore, SimulatedClock>;
+
+/// Persisted mode: the repository's persistence chain of node N, plus the harness' own record
+/// (log indices) of what it handed to that chain and the chain acknowledged.
+struct StoreH {
+    os: Arc<InMemoryObjectStore>,
+    /// write buffer + segment writer of the running incarnation (dies with it)
+    sp: Sp,
+    /// wall clock of the checkpoint manager (names the checkpoint objects); not the node's clock
+    ck_time: VerifTime,
+    /// WAL files and rotation threshold, if the WAL is enabled
+    wal: Option<(InMemoryWalStore, usize)>,
+    /// pushed, not yet flushed
+    buffer: Vec<usize>,
+    /// flushed segments the manifest still lists (id, log indices)
+    live_segments: Vec<(u64, Vec<usize>)>,
+    last_segment_id: Option<u64>,
+    /// the snapshot handed to the latest installed checkpoint
+    ckpt: Option<HashMap<String, ReplicatedValue>>,
+    /// WAL entries of the running incarnation not yet known durable / durable entries of all incarnations
+    wal_pending: Vec<usize>,
+    wal_durable: Vec<usize>,
+}
+
+async fn new_sp(os: &Arc<InMemoryObjectStore>) -> Result<Sp, String> {
+    StreamingPersistence::with_clock(
+        os.clone(),
+        PREFIX.to_string(),
+        N_ID,
+        WriteBufferConfig::test(),
+        SimulatedClock::new(0),
+    )
+    .await
+    .map_err(|e| format!("StreamingPersistence::with_clock: {}", e))
+}
+
+fn has_tombstone(v: &ReplicatedValue) -> bool {
+    slots_of(v).iter().any(|(_, _, val)| val.is_none())
+}
+
 struct H<'a, 'b> {
     ctx: &'a mut CaseCtx<'b>,
+    store: Option<StoreH>,
     kf_open: bool,
     n: Node,
     p: Node,
@@ -680,6 +822,17 @@ impl<'a, 'b> H<'a, 'b> {
         let seen_before = self.seen_ckpt[s].max(self.seen_other[s]);
         let log_idx = self.log.len();
         self.log.push(delta.clone());
+        if let Some(st) = self.store.as_mut() {
+            // what the delta sink bridge does with every delta of a local command, and what
+            // execute() does when a WAL is configured
+            if let Err(e) = st.sp.push(delta.clone()) {
+                return Err(format!("harness: StreamingPersistence::push refused a delta: {}", e));
+            }
+            st.buffer.push(log_idx);
+            if st.wal.is_some() {
+                st.wal_pending.push(log_idx);
+            }
+        }
         let slots = slots_of(&delta.value);
         let introduced: Vec<(String, Stamp, Option<Vec<u8>>)> = slots
             .iter()
@@ -717,7 +870,7 @@ impl<'a, 'b> H<'a, 'b> {
                 if only_ckpt && self.kf_open {
                     tolerated = true;
                 } else {
-                    let src = if *st <= self.seen_other[s] {
+                    let mut src = if *st <= self.seen_other[s] {
                         format!(
                             "({}, r{}) shown through its own writes / applied deltas",
                             self.seen_other[s].0, self.seen_other[s].1
@@ -728,6 +881,12 @@ impl<'a, 'b> H<'a, 'b> {
                             self.seen_ckpt[s].0, self.seen_ckpt[s].1
                         )
                     };
+                    if self.store.is_some() && self.inc > 0 {
+                        src.push_str(
+                            " [persisted mode: 'shown' to this incarnation = held by the snapshot given to the installed checkpoint, \
+                             by the flushed segments after it or by the durable WAL entries, or returned by the recovery]",
+                        );
+                    }
                     return Err(self.fail(format!(
                         "{}: {} stamp ({}, r{}) is not greater than a stamp the node had already been shown for shard {}: {}",
                         what, name, st.0, st.1, s, src
@@ -882,6 +1041,87 @@ impl<'a, 'b> H<'a, 'b> {
         Ok(())
     }
 
+    /// Persisted mode: the write buffer becomes a segment (and is listed in the manifest).
+    async fn store_flush(&mut self) -> Result<(), String> {
+        let Some(st) = self.store.as_mut() else { return Ok(()) };
+        let n = st.buffer.len();
+        let r = match st.sp.flush().await {
+            Ok(r) => r,
+            Err(e) => return Err(self.fail(format!("StreamingPersistence::flush of {} buffered deltas failed on the undamaged in-memory store: {}", n, e))),
+        };
+        if n == 0 {
+            self.ctx.label("store:flush_empty");
+            return Ok(());
+        }
+        let Some(seg) = r.segment else {
+            return Err(self.fail(format!("flush of {} buffered deltas reported success but wrote no segment", n)));
+        };
+        if r.deltas_flushed != n {
+            return Err(self.fail(format!("flush of {} buffered deltas reported {} flushed", n, r.deltas_flushed)));
+        }
+        let st = self.store.as_mut().unwrap();
+        let idx = std::mem::take(&mut st.buffer);
+        self.trace.push(format!("[inc {}] flush: segment {} holds log[{:?}]", self.inc, seg.id, idx));
+        st.live_segments.push((seg.id, idx));
+        st.last_segment_id = Some(seg.id);
+        self.ctx.label("store:flush");
+        Ok(())
+    }
+
+    /// Persisted mode: `CheckpointManager::create_checkpoint(snapshot, last flushed segment)`
+    /// and its installation in the manifest (`compact_segments`), as checkpoint.rs documents.
+    /// The API's precondition is that the checkpoint covers at least one existing segment.
+    async fn store_checkpoint(&mut self, snap: HashMap<String, ReplicatedValue>) -> Result<(), String> {
+        let Some(st) = self.store.as_ref() else { return Ok(()) };
+        if st.last_segment_id.is_none() {
+            if st.buffer.is_empty() {
+                self.ctx.label("store:checkpoint_skipped_no_segment");
+                return Ok(());
+            }
+            self.ctx.label("store:checkpoint_forces_first_flush");
+            self.store_flush().await?;
+        }
+        let st = self.store.as_mut().unwrap();
+        let last = st.last_segment_id.expect("a segment exists");
+        st.ck_time.advance(1000);
+        let mm = ManifestManager::new((*st.os).clone(), PREFIX);
+        let cm = CheckpointManager::with_time_source(
+            st.os.clone(),
+            PREFIX.to_string(),
+            mm.clone(),
+            CheckpointConfig::test(),
+            st.ck_time.clone(),
+        );
+        let cp = cm
+            .create_checkpoint(snap.clone(), last)
+            .await
+            .map_err(|e| format!("CheckpointManager::create_checkpoint failed on the undamaged in-memory store: {}", e))?;
+        let info = CheckpointInfo {
+            key: cp.key.clone(),
+            timestamp_ms: cp.timestamp_ms,
+            key_count: cp.key_count,
+            last_segment_id: cp.last_segment_id,
+        };
+        mm.update(|m| m.compact_segments(info))
+            .await
+            .map_err(|e| format!("installing the checkpoint in the manifest failed on the undamaged in-memory store: {}", e))?;
+        st.live_segments.retain(|(id, _)| *id > last);
+        let tomb = snap.values().any(has_tombstone);
+        self.trace.push(format!(
+            "[inc {}] checkpoint installed in the store: {} keys, covers segments <= {}, {} unflushed deltas",
+            self.inc,
+            snap.len(),
+            last,
+            st.buffer.len()
+        ));
+        st.ckpt = Some(snap);
+        self.ctx.label("store:checkpoint");
+        if tomb {
+            self.ctx.label("store:checkpoint_holds_tombstone");
+        }
+        Ok(())
+    }
+
     async fn crash_and_recover(&mut self, r: &Recovery) -> Result<(), String> {
         self.check_served().await?;
         let range = |(a, b): (u16, u16), len: usize| -> (usize, usize) {
@@ -889,30 +1129,118 @@ impl<'a, 'b> H<'a, 'b> {
             let hi = (b as usize * (len + 1)) >> 16;
             (lo.min(len), hi.min(len).max(lo.min(len)))
         };
-        let dropped = |k: &str| (r.drop_shards >> shard_of(k)) & 1 == 1;
-        let ck_idx = match r.ckpt {
-            Some(c) if !self.ckpts.is_empty() => Some((c as usize * self.ckpts.len()) >> 16),
-            _ => None,
-        };
-        let ck: Option<HashMap<String, ReplicatedValue>> = ck_idx.map(|i| {
-            self.ckpts[i]
+        // ---- the sources: what a correct recovery hands to the new incarnation
+        let ck: Option<HashMap<String, ReplicatedValue>>;
+        let seg: Vec<(usize, ReplicationDelta)>;
+        let wal: Option<Vec<(usize, ReplicationDelta)>>;
+        if self.store.is_some() {
+            // persisted mode: the process dies with its write buffer and the not yet durable
+            // WAL tail; everything else is in the store / the WAL files
+            let log = &self.log;
+            let st = self.store.as_mut().unwrap();
+            if !st.buffer.is_empty() {
+                self.ctx.label("store:rec:unflushed_deltas_lost");
+            }
+            st.buffer.clear();
+            let pending = std::mem::take(&mut st.wal_pending);
+            if let Some((ws, size)) = &st.wal {
+                let lose = (r.wal_lose as usize).min(pending.len());
+                if lose > 0 {
+                    self.ctx.label("store:rec:wal_tail_lost");
+                }
+                let keep = &pending[..pending.len() - lose];
+                if !keep.is_empty() {
+                    let mut rot = WalRotator::new(ws.clone(), *size).map_err(|e| format!("harness: WalRotator::new: {}", e))?;
+                    for &i in keep {
+                        let e = WalEntry::from_delta(&log[i], log[i].value.timestamp.time)
+                            .map_err(|e| format!("harness: WalEntry::from_delta: {}", e))?;
+                        rot.append(&e).map_err(|e| format!("harness: WAL append: {}", e))?;
+                    }
+                    rot.sync().map_err(|e| format!("harness: WAL sync: {}", e))?;
+                }
+                st.wal_durable.extend_from_slice(keep);
+            }
+            ck = st.ckpt.clone();
+            seg = st
+                .live_segments
                 .iter()
-                .filter(|(k, _)| !dropped(k))
-                .map(|(k, v)| (k.clone(), v.clone()))
-                .collect()
-        });
-        let (s0, s1) = range(r.seg, self.log.len());
-        let seg: Vec<(usize, ReplicationDelta)> = (s0..s1)
-            .map(|i| (i, self.log[i].clone()))
-            .filter(|(_, d)| !dropped(&d.key))
-            .collect();
-        let wal: Option<Vec<(usize, ReplicationDelta)>> = r.wal.map(|w| {
-            let (w0, w1) = range(w, self.log.len());
-            (w0..w1)
+                .flat_map(|(_, idx)| idx.iter().map(|&i| (i, log[i].clone())))
+                .collect();
+            wal = st.wal.as_ref().map(|_| st.wal_durable.iter().map(|&i| (i, log[i].clone())).collect());
+            self.trace.push(format!(
+                "---- crash; recovery #{} from the store: checkpoint {} ({} keys), live segments {:?}, durable WAL entries {:?}",
+                self.inc + 1,
+                if ck.is_some() { "installed" } else { "none" },
+                ck.as_ref().map(|c| c.len()).unwrap_or(0),
+                st.live_segments,
+                wal.as_ref().map(|w| w.iter().map(|x| x.0).collect::<Vec<_>>())
+            ));
+            // how often is a shard's greatest persisted stamp held by the checkpoint alone,
+            // and by a tombstone in it?
+            let mut ck_max = [((0u64, 0u64), false); NUM_SHARDS];
+            let mut other_max = [(0u64, 0u64); NUM_SHARDS];
+            for (k, v) in ck.iter().flatten() {
+                let e = &mut ck_max[shard_of(k)];
+                for (_, stp, val) in slots_of(v) {
+                    if stp > e.0 {
+                        *e = (stp, val.is_none());
+                    }
+                }
+                if stamp(&v.timestamp) > e.0 {
+                    e.0 = stamp(&v.timestamp);
+                }
+            }
+            for (_, d) in seg.iter().chain(wal.iter().flatten()) {
+                let e = &mut other_max[shard_of(&d.key)];
+                for stp in all_stamps(&d.value) {
+                    *e = (*e).max(stp);
+                }
+            }
+            if (0..NUM_SHARDS).any(|i| ck_max[i].0 > other_max[i]) {
+                self.ctx.label("store:rec:shard_max_only_in_checkpoint");
+            }
+            if (0..NUM_SHARDS).any(|i| ck_max[i].0 > other_max[i] && ck_max[i].1) {
+                self.ctx.label("store:rec:shard_max_is_checkpointed_tombstone");
+            }
+        } else {
+            let dropped = |k: &str| (r.drop_shards >> shard_of(k)) & 1 == 1;
+            let ck_idx = match r.ckpt {
+                Some(c) if !self.ckpts.is_empty() => Some((c as usize * self.ckpts.len()) >> 16),
+                _ => None,
+            };
+            ck = ck_idx.map(|i| {
+                self.ckpts[i]
+                    .iter()
+                    .filter(|(k, _)| !dropped(k))
+                    .map(|(k, v)| (k.clone(), v.clone()))
+                    .collect()
+            });
+            let (s0, s1) = range(r.seg, self.log.len());
+            seg = (s0..s1)
                 .map(|i| (i, self.log[i].clone()))
                 .filter(|(_, d)| !dropped(&d.key))
-                .collect()
-        });
+                .collect();
+            wal = r.wal.map(|w| {
+                let (w0, w1) = range(w, self.log.len());
+                (w0..w1)
+                    .map(|i| (i, self.log[i].clone()))
+                    .filter(|(_, d)| !dropped(&d.key))
+                    .collect()
+            });
+            if r.drop_shards != 0 {
+                self.ctx.label("rec:some_shards_dropped");
+            }
+            self.trace.push(format!(
+                "---- crash; recovery #{}: checkpoint {} ({} keys), segment deltas log[{}..{}), wal {:?}, dropped shards mask {:#06x}",
+                self.inc + 1,
+                ck_idx.map(|i| format!("#{}", i)).unwrap_or_else(|| "none".into()),
+                ck.as_ref().map(|c| c.len()).unwrap_or(0),
+                s0,
+                s1,
+                r.wal.map(|w| range(w, self.log.len())),
+                r.drop_shards
+            ));
+        }
         let class = match (&ck, seg.is_empty() && wal.as_ref().map(|w| w.is_empty()).unwrap_or(true)) {
             (Some(c), true) if !c.is_empty() => "rec:checkpoint_only",
             (Some(c), false) if !c.is_empty() => "rec:checkpoint_and_deltas",
@@ -923,19 +1251,6 @@ impl<'a, 'b> H<'a, 'b> {
         if wal.is_some() {
             self.ctx.label("rec:second_call_wal");
         }
-        if r.drop_shards != 0 {
-            self.ctx.label("rec:some_shards_dropped");
-        }
-        self.trace.push(format!(
-            "---- crash; recovery #{}: checkpoint {} ({} keys), segment deltas log[{}..{}), wal {:?}, dropped shards mask {:#06x}",
-            self.inc + 1,
-            ck_idx.map(|i| format!("#{}", i)).unwrap_or_else(|| "none".into()),
-            ck.as_ref().map(|c| c.len()).unwrap_or(0),
-            s0,
-            s1,
-            r.wal.map(|w| range(w, self.log.len())),
-            r.drop_shards
-        ));
 
         // fresh node, same replica id
         self.n = new_node(N_ID);
@@ -965,14 +1280,66 @@ impl<'a, 'b> H<'a, 'b> {
             fed.entry(d.key.clone()).or_default().push(d.value.clone());
             fed_idx.insert(*i);
         }
-        // the two calls server_persistent makes
-        self.n
-            .st
-            .apply_recovered_state(ck, seg.into_iter().map(|x| x.1).collect());
-        if let Some(w) = wal {
+        if self.store.is_some() {
+            // the server's start-up sequence: StreamingIntegration::recover (needs_recovery,
+            // recover_with_progress, apply_recovered_state), then the WAL replay, then a new
+            // persistence pipeline. Whatever the recovery really returns has also been shown
+            // to the node.
+            let os = self.store.as_ref().unwrap().os.clone();
+            let rm = RecoveryManager::new((*os).clone(), PREFIX, N_ID);
+            let needs = rm.needs_recovery().await.map_err(|e| format!("harness: needs_recovery: {}", e))?;
+            if needs {
+                let rec = match rm.recover_with_progress(|_| {}).await {
+                    Ok(rec) => rec,
+                    Err(e) => return Err(self.fail(format!("recovery from the undamaged in-memory store failed: {}", e))),
+                };
+                if let Some(c) = &rec.checkpoint_state {
+                    let mut keys: Vec<&String> = c.keys().collect();
+                    keys.sort();
+                    for k in keys {
+                        self.shown_ckpt(k, &c[k]);
+                        self.recovered_keys.insert(k.clone());
+                    }
+                }
+                for d in &rec.deltas {
+                    self.shown_delta(&d.key, &d.value);
+                    self.recovered_keys.insert(d.key.clone());
+                }
+                self.trace.push(format!(
+                    "       recover(): checkpoint {} keys, {} segment deltas",
+                    rec.checkpoint_state.as_ref().map(|c| c.len()).unwrap_or(0),
+                    rec.deltas.len()
+                ));
+                self.n.st.apply_recovered_state(rec.checkpoint_state, rec.deltas);
+            }
+            if let Some((ws, size)) = self.store.as_ref().unwrap().wal.clone() {
+                let rot = WalRotator::new(ws, size).map_err(|e| format!("harness: WalRotator::new: {}", e))?;
+                let entries = match rot.recover_all_entries() {
+                    Ok(e) => e,
+                    Err(e) => return Err(self.fail(format!("WAL replay of undamaged files failed: {}", e))),
+                };
+                let deltas: Vec<ReplicationDelta> = entries.iter().filter_map(|e| e.to_delta().ok()).collect();
+                for d in &deltas {
+                    self.shown_delta(&d.key, &d.value);
+                    self.recovered_keys.insert(d.key.clone());
+                }
+                self.trace.push(format!("       WAL replay: {} entries", deltas.len()));
+                if !deltas.is_empty() {
+                    self.n.st.apply_recovered_state(None, deltas);
+                }
+            }
+            let sp = new_sp(&os).await?;
+            self.store.as_mut().unwrap().sp = sp;
+        } else {
+            // the two calls server_persistent makes
             self.n
                 .st
-                .apply_recovered_state(None, w.into_iter().map(|x| x.1).collect());
+                .apply_recovered_state(ck, seg.into_iter().map(|x| x.1).collect());
+            if let Some(w) = wal {
+                self.n
+                    .st
+                    .apply_recovered_state(None, w.into_iter().map(|x| x.1).collect());
+            }
         }
 
         // (ii) a recovery whose sources contain an acknowledged write, and otherwise only
@@ -1024,8 +1391,33 @@ impl<'a, 'b> H<'a, 'b> {
 fn check_case(case: &Case, ctx: &mut CaseCtx<'_>) -> Result<(), String> {
     vcore::block_on(async {
         let kf_open = ctx.finding_open(KF1);
+        let store = match &case.store {
+            None => None,
+            Some(cfg) => {
+                ctx.label("store:case");
+                if cfg.wal.is_some() {
+                    ctx.label("store:wal_enabled");
+                }
+                let os = Arc::new(InMemoryObjectStore::new());
+                let sp = new_sp(&os).await?;
+                Some(StoreH {
+                    os,
+                    sp,
+                    ck_time: VerifTime::new(1_000_000),
+                    // WAL_HEADER_SIZE is 16; the threshold must be larger
+                    wal: cfg.wal.map(|n| (InMemoryWalStore::new(), 17 + n as usize)),
+                    buffer: Vec::new(),
+                    live_segments: Vec::new(),
+                    last_segment_id: None,
+                    ckpt: None,
+                    wal_pending: Vec::new(),
+                    wal_durable: Vec::new(),
+                })
+            }
+        };
         let mut h = H {
             ctx,
+            store,
             kf_open,
             n: new_node(N_ID),
             p: new_node(PEER_ID),
@@ -1105,14 +1497,21 @@ fn check_case(case: &Case, ctx: &mut CaseCtx<'_>) -> Result<(), String> {
                     }
                     Op::Checkpoint => {
                         let snap = h.n.st.snapshot_state().await;
-                        h.trace.push(format!(
-                            "[inc {}] checkpoint #{} taken ({} keys, {} deltas logged so far)",
-                            h.inc,
-                            h.ckpts.len(),
-                            snap.len(),
-                            h.log.len()
-                        ));
-                        h.ckpts.push(snap);
+                        if h.store.is_some() {
+                            h.store_checkpoint(snap).await?;
+                        } else {
+                            h.trace.push(format!(
+                                "[inc {}] checkpoint #{} taken ({} keys, {} deltas logged so far)",
+                                h.inc,
+                                h.ckpts.len(),
+                                snap.len(),
+                                h.log.len()
+                            ));
+                            h.ckpts.push(snap);
+                        }
+                    }
+                    Op::Flush => {
+                        h.store_flush().await?;
                     }
                     Op::Echo { hash, k } => {
                         let key = if *hash { hkey(*k) } else { skey(*k) };
@@ -1151,11 +1550,12 @@ fn minimal_reproducer() -> Case {
         phases: vec![
             Phase { recovery: None, ops: vec![Op::Set { k: 0 }, Op::Set { k: 0 }, Op::Checkpoint] },
             Phase {
-                recovery: Some(Recovery { ckpt: Some(65535), seg: (0, 0), wal: None, drop_shards: 0 }),
+                recovery: Some(Recovery { ckpt: Some(65535), seg: (0, 0), wal: None, drop_shards: 0, wal_lose: 0 }),
                 ops: vec![Op::Set { k: 0 }],
             },
         ],
         gossip_back: true,
+        store: None,
     }
 }
 
@@ -1174,6 +1574,7 @@ fn main() {
     s.assume("shard routing of ReplicatedShardedState is DefaultHasher::new() over the key string modulo 16 (replicated in the harness; the function is private)");
     s.assume("remote deltas are built by the repository's own ShardReplicaState with its clock set to the chosen time, so every fed value has the shape the code itself produces; stamps are kept <= 2^62 (u64 wrap-around of the clock is outside the explored domain)");
     s.assume("a stamp counts as 'shown' to an incarnation only if it was fed to that incarnation (recovery sources, remote deltas, echoes, own writes); data that no recovery source contained cannot be outrun by any implementation");
+    s.assume("persisted_histories: the recovery sources of an incarnation are what the persistence layer acknowledged before the crash - the snapshot passed to the last CheckpointManager::create_checkpoint that returned Ok and was installed with compact_segments, the deltas of every flush that returned Ok with a segment id above the checkpoint's last_segment_id, the WAL entries appended and synced - on an undamaged in-memory object store / WAL store; compaction is not run (C13), store faults are not injected (C12); a checkpoint always covers at least one flushed segment (the API's precondition, last_segment_id = newest flushed segment)");
     s.describe_check(
         "restart_histories",
         "oracle (i): every stamp introduced by an acknowledged local write > every stamp shown to that shard in the current incarnation and carries replica id 1; \
@@ -1191,6 +1592,22 @@ fn main() {
         "restart_histories",
         s.scale(60_000, 1_500_000),
         || case_strategy(thorough),
+        check_case,
+    );
+    s.describe_check(
+        "persisted_histories",
+        "the same histories and oracle with the repository's persistence chain between the incarnations: every emitted delta is pushed to a \
+         StreamingPersistence write buffer (generated flushes -> segments; the unflushed rest dies with the process) and, if the WAL is on, \
+         appended to a WalRotator (generated loss of the newest entries); checkpoints = CheckpointManager::create_checkpoint(snapshot_state(), \
+         last flushed segment) + Manifest::compact_segments; restart = RecoveryManager::recover_with_progress + apply_recovered_state, then the \
+         WAL replay, as StreamingIntegration::recover / server_persistent do. The stamps the new incarnation must outrun are those of the \
+         snapshot given to the installed checkpoint, of the flushed segments after it and of the durable WAL entries (as handed in by the \
+         harness), plus whatever the recovery returned",
+    );
+    s.run_cases(
+        "persisted_histories",
+        s.scale(15_000, 400_000),
+        || store_case_strategy(thorough),
         check_case,
     );
     s.finish();
